@@ -544,6 +544,13 @@ class Monitors(object):
         q = self.sim.procs.get(key)
         if q is None or q.journal is None:
             return False
+        if q.dead:
+            # a process that is down: what it had vouched for before it was killed is owed by its next incarnation - whether
+            # its files still hold it is judged (and reported) by the recovery monitor when it is back, not by whoever counted it
+            for e in self.ext:
+                di = getattr(e, 'dead_info', None)
+                if di is not None and key in di and (pos, term) in di[key]['vouched']:
+                    return True
         j = q.journal
         f = j.first_idx()
         if f is None:
